@@ -545,6 +545,11 @@ fn check_inner(case: &Case) -> Outcome {
         doors.push((name, v));
     }
     for (name, v) in doors {
+        // the interior-point stage may fail to converge (Clarabel: "Max iterations reached"), which is
+        // no verdict at all and is not compared (as in C05)
+        if name == "pipe-real" && matches!(v, Verdict::Other(_)) {
+            continue;
+        }
         let ok = if satisfy {
             std::mem::discriminant(v) == std::mem::discriminant(&text_verdict)
         } else {
